@@ -66,6 +66,15 @@ def run(ctx):
             r = ("bin", rng.choice(["+", "-", "*"]), ("var", rng.choice(gen_expr.INT_VARS), "int"), r)
         fams.append(("chains-%d" % k, [e, r], True))
 
+    # postfix forms on a call in parentheses - `(mkp e).x`, `(pair a b).1` - in every operand position of every operator
+    pf = gen_expr.postfix_positions(rng)
+    for k in range(0, len(pf), 20):
+        fams.append(("postfix-on-call-%d" % k, pf[k:k + 20], True))
+    # runs of one and the same operator (2 .. 400 operators): `t0 op t1 op ... op tn` is the left-nested prefix form
+    run_ops = ["+", "*", "-", "and", "or", "==", "/", "%"]
+    for n in ([2, 47, 48, 49, 64, 130] if quick else [2, 3, 7, 8, 9, 15, 16, 17, 31, 32, 33, 47, 48, 49, 63, 64, 65, 100, 127, 128, 129, 255, 256, 257, 400]):
+        fams.append(("same-operator-run-%d" % n, [gen_expr.same_op_run(rng, op, n) for op in run_ops], True))
+
     # volume: more than MAX_RECURSION_DEPTH small expressions with unparenthesised unary operators in one file - the
     # nesting guard counts nesting, so any per-file residue of it shows here (not in deep nesting)
     vol = []
@@ -153,7 +162,7 @@ def run(ctx):
     ctx.sample(gen_expr.infix(fams[-3][1][0])[:200] if len(fams) > 3 else "")
     ctx.sample(gen_expr.prefix(good[0])); ctx.sample({"theorems": info.get("theorems", [])})
     ctx.cov["rule"] = ("every ordered pair of the 13 binary operators in both nestings (left / right), random typed trees over 13 binary + 2 unary operators, literals, variables, "
-                       "field accesses and calls to depth 6, left- and right-nested chains to 300 levels; each written in prefix and infix form, both compiled by nano_virt --emit-nvm: "
+                       "field accesses and calls to depth 6, field access / tuple index on a parenthesised call in every operand position of every operator, runs of 2..400 identical operators, left- and right-nested chains to 300 levels; each written in prefix and infix form, both compiled by nano_virt --emit-nvm: "
                        "files must be byte-identical and run alike; the Lean lexer+parser+codegen models must produce the same file for each spelling; distinct by prefix text")
     for f in oracle_fail[:3]:
         ctx.violation({"kind": "oracle", "detail": f})
